@@ -197,7 +197,7 @@ def place(digest, where):
                       (1, dict(now=5, nb0=0, na0=5, nb1=5, na1=9, nb2=0, na2=9, nb3=0, na3=9, v0=True, v1=True, v2=True, v3=True, p256=False, vak=True, vq=True,
                                wak=0, wq=0, w=True))])
 def chain(now: int, nb0: int, na0: int, nb1: int, na1: int, nb2: int, na2: int, nb3: int, na3: int, v0: bool, v1: bool, v2: bool,
-          v3: bool, p256: bool, vak: bool, vq: bool, wak: int, wq: int, w: bool) -> bool:
+          v3: bool, p256: bool, vak: bool, vq: bool, wak: int, wq: int, w: bool, now2: int = 5, vtop2: bool = True) -> bool:
     """
     pre: 0 <= wak <= 2 and 0 <= wq <= 2
     post: _
@@ -246,26 +246,38 @@ def chain(now: int, nb0: int, na0: int, nb1: int, na1: int, nb2: int, na2: int, 
         cert = c2.HSMCertificateV2(doc)
         root = c2.HSMCertificateV2ElementX509({"name": "sgx_root", "message": ROOT_B64, "signed_by": "sgx_root"})
         got = cert.validate_and_get_values(root)
-        # ---- oracle: walk from the root down
-        failing = None
-        for i in range(depth - 1, -1, -1):
-            if not (nbs[i] <= now <= nas[i] and vs[i]):
-                failing = XNAMES[i]
-                break
-        if failing is None and not (p256 and vak and wak == 0):
-            failing = "attestation"
-        if failing is None and not (vq and wq == 0):
-            failing = "quote"
-        g = got.get("quote")
-        if failing is not None:
-            return g == (False, failing) and len(got) == 1
-        if g is None or g[0] is not True or len(g) != 3 or g[2] is not None:
+        def judge(got, now_, vs_):
+            # ---- oracle: walk from the root down
+            failing = None
+            for i in range(depth - 1, -1, -1):
+                if not (nbs[i] <= now_ <= nas[i] and vs_[i]):
+                    failing = XNAMES[i]
+                    break
+            if failing is None and not (p256 and vak and wak == 0):
+                failing = "attestation"
+            if failing is None and not (vq and wq == 0):
+                failing = "quote"
+            g = got.get("quote")
+            if failing is not None:
+                return g == (False, failing) and len(got) == 1
+            if g is None or g[0] is not True or len(g) != 3 or g[2] is not None:
+                return False
+            val = g[1]
+            # the reported custom message and quote fields are the signed ones
+            return val["message"] == custom.hex() and bytes(val["sgx_quote"].get_raw_data()) == q_msg[:432] \
+                and bytes(val["sgx_quote"].report_body.report_data.field) == place(q_digest, 0) \
+                and bytes(val["sgx_quote"].report_body.mrenclave) == q_msg[QUOTE_HEADER + 64:QUOTE_HEADER + 96]
+        if not judge(got, now, vs):
             return False
-        val = g[1]
-        # the reported custom message and quote fields are the signed ones
-        return val["message"] == custom.hex() and bytes(val["sgx_quote"].get_raw_data()) == q_msg[:432] \
-            and bytes(val["sgx_quote"].report_body.report_data.field) == place(q_digest, 0) \
-            and bytes(val["sgx_quote"].report_body.mrenclave) == q_msg[QUOTE_HEADER + 64:QUOTE_HEADER + 96]
+        # the SAME certificate object validated again later (another time) and against a root whose signature on the topmost
+        # certificate has another verdict: everything is judged afresh
+        world.now = now2
+        top = depth - 1
+        world.right[(("x509key", ROOT_B64.encode()), b"SIG:" + B64[top].encode(), b"TBS:" + B64[top].encode())] = vtop2
+        vs2 = list(vs)
+        vs2[top] = vtop2
+        got2 = cert.validate_and_get_values(root)
+        return judge(got2, now2, vs2)
     except Exception as e:
         reraise_control_flow(e)
         from harness.common import note
